@@ -127,9 +127,22 @@ func ruleR01_1(p *Program, r *Report) {
 		}
 		if k, ok := constInt(c.Common().Args[2]); ok {
 			widths = append(widths, k)
+		} else if m, ok := constMapping(stripConv(c.Common().Args[2])); ok && len(m) == 3 && m[16] == 2 && m[17] == 3 && m[18] == 7 {
+			// the extra-bit width looked up by a pure function of the repeat code (16 -> 2, 17 -> 3, 18 -> 7, else 0)
+			widths = append(widths, 2, 3, 7)
 		} else {
 			nonConst++
 		}
+	}
+	// the 3-bit block header may be one write of a value picked by eos (R10.6 judges the value) or two writes
+	n3 := 0
+	for _, k := range widths {
+		if k == 3 {
+			n3++
+		}
+	}
+	if n3 == 3 {
+		widths = append(widths, 3)
 	}
 	// expected constant widths in program order: 3 (x2: final / non-final), 5, 5, 4, 3, then 2, 3, 7 for the repeat codes; one variable-width write (the code itself)
 	want := []int64{2, 3, 3, 3, 3, 4, 5, 5, 7}
@@ -504,7 +517,26 @@ func ruleR01_5(p *Program, r *Report) {
 				return false
 			}
 			f := c.Common().StaticCallee()
-			return f != nil && f.Pkg == fn.Pkg && strings.HasPrefix(f.Name(), "NewWriter")
+			if f == nil || f.Pkg != fn.Pkg {
+				return false
+			}
+			if strings.HasPrefix(f.Name(), "NewWriter") {
+				return true
+			}
+			// a private helper that builds the Writer: its own success paths all install one of the two
+			if f.Blocks != nil && f.Signature.Results().Len() > 0 && derefNamed(f.Signature.Results().At(0).Type()) == tr.Named {
+				hsucc := func(in ssa.Instruction) bool {
+					ret, ok := in.(*ssa.Return)
+					if !ok {
+						return false
+					}
+					e := returnErr(ret)
+					return e == nil || p.mayBeNil(f, e, ret)
+				}
+				open, _, _ := PathQuery{Target: hsucc, Barrier: setter}.Find(f)
+				return !open
+			}
+			return false
 		}
 		succ := func(in ssa.Instruction) bool {
 			ret, ok := in.(*ssa.Return)
@@ -842,7 +874,7 @@ func ruleR06_1(p *Program, r *Report) {
 	recv := wr.Params[0]
 	// header array literal: buf[0..2]
 	hdr := map[int64]int64{}
-	flagOf := map[string]int64{}  // field -> flag constant
+	flagOf := map[string]int64{}    // field -> flag constant
 	flagFact := map[string]string{} // field -> condition at flag site
 	for _, b := range wr.Blocks {
 		for _, in := range b.Instrs {
@@ -975,6 +1007,34 @@ func ruleR06_1(p *Program, r *Report) {
 						}
 					}
 				}
+				if hc, isC := stripConv(x.Val).(*ssa.Call); isC && idx == 1 {
+					// the FLEVEL switch extracted into a function of the level
+					if h := hc.Common().StaticCallee(); h != nil && h.Blocks != nil && h.Pkg == wh.Pkg && len(h.Params) == 1 && len(hc.Common().Args) == 1 {
+						if _, sel, ok := fieldLoad(hc.Common().Args[0]); ok && sel == ".level" {
+							for _, hb := range h.Blocks {
+								for _, hin := range hb.Instrs {
+									ret, ok := hin.(*ssa.Return)
+									if !ok || len(ret.Results) != 1 {
+										continue
+									}
+									rv, isRV := constInt(ret.Results[0])
+									if !isRV {
+										continue
+									}
+									for _, pr := range hb.Preds {
+										if br, ok := edgeCond(pr, hb); ok {
+											if f, ok := branchFact(br); ok && f.Y != nil && f.Op == token.EQL && stripConv(f.X) == ssa.Value(h.Params[0]) {
+												if k, isK := constInt(f.Y); isK {
+													levels[k] = rv
+												}
+											}
+										}
+									}
+								}
+							}
+						}
+					}
+				}
 				if bo, ok := x.Val.(*ssa.BinOp); ok && bo.Op == token.OR && idx == 1 {
 					if k, isK := constInt(bo.Y); isK {
 						fdict = k
@@ -1069,6 +1129,14 @@ func ruleR06_2(p *Program, r *Report) {
 			}
 		}
 		return false
+	}
+	if !hasBody(wr) {
+		// ... or by a helper the header writer passes its receiver to
+		for _, rf := range recvRegion(wr) {
+			if rf.fn != wr && hasBody(rf.fn) && rf.fn.Name() != "writeBytes" && rf.fn.Name() != "writeString" {
+				wr = rf.fn
+			}
+		}
 	}
 	if !hasBody(wr) {
 		for _, g := range p.Funcs() {
@@ -1302,9 +1370,44 @@ func ruleR01_6(p *Program, r *Report) {
 		r.Undecided("R01.6", "anchors", "-", "lz77 and newToken exist", "not found")
 		return
 	}
-	input := lz.Params[5]
+	input := ssa.Value(lz.Params[5])
+	offParam := ssa.Value(lz.Params[7])
 	invalid, _ := constOf(p, deflRel, "InvalidDist")
+	// the literal sites may sit in plain helper functions lz77 hands its input and offset to (the flush tail
+	// extracted): each is judged with the parameters those two are bound to
+	type scope struct {
+		fn         *ssa.Function
+		input, off ssa.Value
+	}
+	scopes := []scope{{lz, input, offParam}}
+	for _, c := range allCalls(lz) {
+		h := c.Common().StaticCallee()
+		if h == nil || h.Blocks == nil || h.Pkg != lz.Pkg || h == nt || h == ld || h.Signature.Recv() != nil {
+			continue
+		}
+		var hin, hoff ssa.Value
+		for i, a := range c.Common().Args {
+			if i >= len(h.Params) {
+				break
+			}
+			if a == input {
+				hin = h.Params[i]
+			}
+			for _, leaf := range p.valueSources(a) {
+				if leaf == offParam && typeString(a.Type()) == "int" {
+					hoff = h.Params[i]
+				}
+			}
+			if _, isPhi := a.(*ssa.Phi); isPhi && typeString(a.Type()) == "int" && hoff == nil {
+				hoff = h.Params[i]
+			}
+		}
+		if hin != nil && hoff != nil {
+			scopes = append(scopes, scope{h, hin, hoff})
+		}
+	}
 	// consistent: value v is the word/byte loaded from input at position off (pairwise over phis of one block)
+	var curInput ssa.Value
 	var consistent func(v, off ssa.Value, depth int) bool
 	consistent = func(v, off ssa.Value, depth int) bool {
 		v, off = stripConv(v), stripConv(off)
@@ -1314,11 +1417,11 @@ func ruleR01_6(p *Program, r *Report) {
 		switch x := v.(type) {
 		case *ssa.Call:
 			if x.Common().StaticCallee() == ld && ld != nil {
-				return x.Common().Args[0] == ssa.Value(input) && stripConv(x.Common().Args[1]) == off
+				return x.Common().Args[0] == curInput && stripConv(x.Common().Args[1]) == off
 			}
 		case *ssa.UnOp:
 			if ia, ok := x.X.(*ssa.IndexAddr); ok && x.Op == token.MUL {
-				return ia.X == ssa.Value(input) && stripConv(ia.Index) == off
+				return ia.X == curInput && stripConv(ia.Index) == off
 			}
 		case *ssa.BinOp:
 			if x.Op == token.AND {
@@ -1345,42 +1448,46 @@ func ruleR01_6(p *Program, r *Report) {
 	}
 	lab := newLabeler()
 	n := 0
-	for _, c := range allCalls(lz) {
-		if c.Common().StaticCallee() != nt {
-			continue
-		}
-		if k, isK := constInt(c.Common().Args[1]); !isK || k != invalid {
-			continue
-		}
-		n++
-		key := "lz77|" + lab.get("literal token")
-		lit := c.Common().Args[0]
-		// the offset advanced by this literal step: offset + 1 in the same block
-		var off ssa.Value
-		for _, in := range c.Block().Instrs {
-			if bo, ok := in.(*ssa.BinOp); ok && bo.Op == token.ADD {
-				if k, isK := constInt(bo.Y); isK && k == 1 {
-					if _, isInt := bo.Type().Underlying().(*types.Basic); isInt && typeString(bo.Type()) == "int" {
-						// candidate: the operand must be (a phi of) the offset parameter's flow
-						for _, leaf := range p.valueSources(bo.X) {
-							if leaf == ssa.Value(lz.Params[7]) {
-								off = bo.X
+	for _, sc := range scopes {
+		input, offParam := sc.input, sc.off
+		curInput = input
+		for _, c := range allCalls(sc.fn) {
+			if c.Common().StaticCallee() != nt {
+				continue
+			}
+			if k, isK := constInt(c.Common().Args[1]); !isK || k != invalid {
+				continue
+			}
+			n++
+			key := "lz77|" + lab.get("literal token")
+			lit := c.Common().Args[0]
+			// the offset advanced by this literal step: offset + 1 in the same block
+			var off ssa.Value
+			for _, in := range c.Block().Instrs {
+				if bo, ok := in.(*ssa.BinOp); ok && bo.Op == token.ADD {
+					if k, isK := constInt(bo.Y); isK && k == 1 {
+						if _, isInt := bo.Type().Underlying().(*types.Basic); isInt && typeString(bo.Type()) == "int" {
+							// candidate: the operand must be (a phi of) the offset parameter's flow
+							for _, leaf := range p.valueSources(bo.X) {
+								if leaf == offParam {
+									off = bo.X
+								}
 							}
-						}
-						if off == nil {
-							if _, isPhi := bo.X.(*ssa.Phi); isPhi {
-								off = bo.X
+							if off == nil {
+								if _, isPhi := bo.X.(*ssa.Phi); isPhi {
+									off = bo.X
+								}
 							}
 						}
 					}
 				}
 			}
+			if off == nil {
+				r.Undecided("R01.6", key, p.InstrPos(c), "the literal step advances an offset by one", "offset increment not found in the block")
+				continue
+			}
+			r.Check(consistent(lit, off, 0), "R01.6", key, p.InstrPos(c), "the literal emitted is the input byte at the offset this step advances past, on every incoming path", "on some path the literal comes from a word loaded at a different offset than the one consumed: the stream stays well-formed but decodes to a wrong byte")
 		}
-		if off == nil {
-			r.Undecided("R01.6", key, p.InstrPos(c), "the literal step advances an offset by one", "offset increment not found in the block")
-			continue
-		}
-		r.Check(consistent(lit, off, 0), "R01.6", key, p.InstrPos(c), "the literal emitted is the input byte at the offset this step advances past, on every incoming path", "on some path the literal comes from a word loaded at a different offset than the one consumed: the stream stays well-formed but decodes to a wrong byte")
 	}
 	if n < 2 {
 		r.Undecided("R01.6", "lz77|literal tokens", p.Pos(lz.Pos()), "two literal-token sites", "found "+itoa(n))
@@ -1796,4 +1903,48 @@ func regionAllCalls(fn *ssa.Function) []ssa.CallInstruction {
 		out = append(out, allCalls(rf.fn)...)
 	}
 	return out
+}
+
+// constMapping: v is the result of a call-free one-parameter function of the package that returns constants
+// selected by equality tests of its parameter with constants; returns the map parameter value -> result (results
+// equal to the default 0 are left out).
+func constMapping(v ssa.Value) (map[int64]int64, bool) {
+	c, ok := v.(*ssa.Call)
+	if !ok {
+		return nil, false
+	}
+	h := c.Common().StaticCallee()
+	if h == nil || h.Blocks == nil || len(h.Params) != 1 || len(allCalls(h)) != 0 {
+		return nil, false
+	}
+	out := map[int64]int64{}
+	for _, b := range h.Blocks {
+		for _, in := range b.Instrs {
+			ret, ok := in.(*ssa.Return)
+			if !ok || len(ret.Results) != 1 {
+				continue
+			}
+			rv, isK := constInt(ret.Results[0])
+			if !isK {
+				return nil, false
+			}
+			if rv == 0 {
+				continue
+			}
+			found := false
+			for _, f := range dominatingFacts(ret) {
+				if f.Y == nil || f.Op != token.EQL {
+					continue
+				}
+				if k, ok := constInt(f.Y); ok && stripConv(f.X) == ssa.Value(h.Params[0]) {
+					out[k] = rv
+					found = true
+				}
+			}
+			if !found {
+				return nil, false
+			}
+		}
+	}
+	return out, true
 }
